@@ -1,8 +1,6 @@
 package verifsim
 
-func genC20(seed int64, tier string) *Plan { return &Plan{Prop: "C20", Engine: "E3", Seed: seed, Cfg: map[string]int{}} }
 func genC14(seed int64, tier string) *Plan { return &Plan{Prop: "C14", Engine: "E3", Seed: seed, Cfg: map[string]int{}} }
 func genC18(seed int64, tier string) *Plan { return &Plan{Prop: "C18", Engine: "E3", Seed: seed, Cfg: map[string]int{}} }
-func runC20(p *Plan, res *Result)          {}
 func runC14(p *Plan, res *Result)          {}
 func runC18(p *Plan, res *Result)          {}
